@@ -279,6 +279,41 @@ theorem wire_after_request (P : KeyParams) (s : KState) (hs : s.alive = true) (s
     show s1.log ++ inner.log.map flagged = _
     rw [hg, List.append_assoc, List.singleton_append]
 
+/-- `secret_fresh` and `wire_after_request` together: in a login started at call number `n0`, from
+the `k`-th reached request on (`k` = number of requests in `pre`, which is also the number of
+cipher layers then in place) the wire is what was there, the reply through those `k` layers, and
+then — through them as well — the AES-128-CFB8 stream with key = IV = draw number `n0 + k` of
+everything the continuation writes. -/
+theorem wire_from_kth_request (P : KeyParams) (n0 : Nat) (pre post : List Step) (sid : String)
+    (pk tok : Bytes) (hpre : ∀ e ∈ events pre, e.isTerminal = false) :
+    let k := (reqs (events pre)).length
+    let d := P.rng.draw (n0 + k)
+    let s0 := execK P (.init n0) pre
+    let sent := updates stackSend s0.layers
+      (frameSends P.z s0.threshold (payloadOf P.ids (replyOf P d pk tok)))
+    let s1 := reactK P s0 (.encRequest sid pk tok)
+    let inner := execK P { s1 with layers := [], wire := [], log := [] } post
+    let s2 := execK P (.init n0) (pre ++ .recv (.encRequest sid pk tok) :: post)
+    s0.layers.length = k ∧
+      s2.wire.flatten =
+        s0.wire.flatten ++ sent.2.flatten ++
+          (stackSend sent.1 (cfb8Enc (aes128 d) d inner.wire.flatten).2).2 := by
+  intro k d s0 sent s1 inner s2
+  obtain ⟨hn, -, hlen, -⟩ := keys_are_consecutive_draws P n0 pre
+  rw [processed_of_live _ hpre] at hn hlen
+  have hal : s0.alive = true := execK_alive P _ pre (init_alive n0) hpre
+  obtain ⟨-, -, -, hw, -⟩ := wire_after_request P s0 hal sid pk tok post
+  have hd : P.rng.draw s0.nDraws = d := by
+    show P.rng.draw (execK P (.init n0) pre).nDraws = _
+    rw [hn]
+  refine ⟨hlen, ?_⟩
+  have hs2 : s2 = execK P s0 (.recv (.encRequest sid pk tok) :: post) := by
+    show execWith genUrandom KChan.create P _ (pre ++ _) = _
+    rw [execWith_append]
+  rw [hs2]
+  rw [hd] at hw
+  exact hw
+
 /-- The usual case written out.  A request reaching a connection with NO cipher yet (`Bare`: the
 wire so far is the plaintext frames of the log), no further request afterwards: the wire is the
 plaintext frames written before, the PLAINTEXT frame of the reply carrying RSA(d), RSA(token), and
